@@ -12,7 +12,7 @@ RULE = ("subcommands x flag combinations {run, run --check, run --again -j, wher
         "{root, package dir, nested package, directory without COND, cond-out, inside a task output, sibling package} x project states (fresh, with failed leftovers, several versions); "
         "non-trivial = command touches cond-out or prints a location; distinct = (state, command, cwd)")
 
-CWDS = ["", "a", "a/b", "docs/deep", "cond-out", "cond-out/a/c1.task", "c-d", "vendor/lib"]
+CWDS = ["", "a", "a/b", "docs/deep", "cond-out", "cond-out/a/c1.task", "c-d", "cond", "vendor/lib"]
 GIT_COMMANDS = [["run", "//:g", "--this-commit"], ["run", "//a/b:e3", "--at-least", "HEAD"], ["run", "//:dd", "--at-least", "HEAD~1"], ["where", "//a:e2"], ["run", "//:g"]]
 T0 = 1_800_000_000
 
@@ -52,6 +52,14 @@ def eval_case(case):
         pr = statecheck.std_project(sc.root, disable_git=not case.get("git"))
         os.makedirs(os.path.join(pr.root, "docs", "deep"), exist_ok=True)
         os.makedirs(os.path.join(pr.root, "vendor", "lib"), exist_ok=True)
+        os.makedirs(os.path.join(pr.root, "cond"), exist_ok=True)  # a sibling of cond-out whose name is a prefix of it
+        # project-relative and relative include() forms in package COND files
+        open(os.path.join(pr.root, "common.cond"), "w").write("SHARED = 1\n")
+        open(os.path.join(pr.root, "a", "local.cond"), "w").write("LOCAL = 2\n")
+        for rel, line in (("a/COND", "include('//common.cond')\ninclude('local.cond')\n"), ("a/b/COND", "include('//common.cond')\ninclude('../local.cond')\n")):
+            pth = os.path.join(pr.root, rel)
+            body = open(pth).read()
+            open(pth, "w").write(line + body)
         if case.get("outer_config"):
             # the project lives inside another Conductor project: the NEAREST cond_config.toml is the root
             open(os.path.join(sc.root, "cond_config.toml"), "w").write("disable_git = true\n")
